@@ -529,3 +529,107 @@ func VH02j_pair_reconnect() {
 	verif.Reach("reconnect-checked")
 	sock.Close()
 }
+
+// VH02k_simultaneous_connect: two or three things happen to a PAIR socket at
+// the same moment -- peers arrive through two different listeners, or through a
+// listener and a dialer; a peer that has only just connected hangs up again --
+// under every schedule in which one goroutine stalls at one synchronisation
+// point until all the others have come to rest. Afterwards: at most one of the
+// connections is open, a message goes to exactly that one, and once it has gone
+// a new peer is accepted and gets the traffic.
+func VH02k_simultaneous_connect() {
+	proto := pairs[verif.Choice("proto", len(pairs))]
+	lab := "C02/" + proto + "/simultaneous"
+	sock := vp.New(proto)
+	verif.Assert(sock.SetOption(mangos.OptionDialAsynch, true) == nil, lab+"/asynch")
+	sa := vt.Listen(sock, "a")
+	sb := vt.Listen(sock, "b")
+	var cands []*vt.Pipe
+	var d *vt.Dialer
+	shape := verif.Choice("shape", 3)
+	switch shape {
+	case 0: // two listeners
+		cands = append(cands, sa.L.Connect("p1"), sb.L.Connect("p2"))
+	case 1: // a listener and a dialer
+		verif.Assert(sock.Dial("vt://peerB") == nil, lab+"/dial")
+		cands = append(cands, sa.L.Connect("p1"))
+	case 2: // a peer arrives and leaves at once, while another arrives
+		p1 := sa.L.Connect("p1")
+		cands = append(cands, p1, sb.L.Connect("p2"))
+		verif.Go("hangup", func() { p1.Drop() })
+	}
+	verif.Quiesce()
+	if shape == 1 {
+		d = vt.T.Dialers[0]
+		verif.Assert(len(d.Pipes) >= 1, lab+"/dialer-never-connected")
+		if len(d.Pipes) >= 1 {
+			cands = append(cands, d.Pipes[0])
+		}
+	}
+	open := 0
+	var cur *vt.Pipe
+	for _, p := range cands {
+		if !p.Closed {
+			open++
+			cur = p
+		}
+	}
+	verif.Assert(open <= 1, lab+"/two-peers-admitted-at-once")
+	if shape != 2 {
+		verif.Assert(open == 1, lab+"/every-simultaneous-peer-refused")
+	}
+	if open != 1 {
+		if open == 0 && shape == 2 {
+			// both gone (the survivor was refused because the leaver still held the place): a newcomer must get in
+			cur = sa.Peer("p3")
+			verif.Assert(!cur.Closed, lab+"/new-peer-refused-although-no-peer-is-left")
+			if cur.Closed {
+				return
+			}
+		} else {
+			return
+		}
+	}
+	b := []byte{'s', verif.Byte("out")}
+	var serr error
+	g := verif.Go("send", func() { serr = sendOne(sock, proto, b) })
+	verif.Quiesce()
+	verif.Assert(g.Done() && serr == nil, lab+"/send-to-the-single-peer")
+	hl := hdrLen(proto)
+	total := len(cur.Sent)
+	for _, p := range cands {
+		if p != cur {
+			total += len(p.Sent)
+		}
+	}
+	verif.Assert(len(cur.Sent) == 1 && total == 1, lab+"/message-not-delivered-exactly-once-to-the-single-peer")
+	if len(cur.Sent) == 1 {
+		w := cur.Sent[0].Bytes()
+		verif.Assert(len(w) == hl+2 && verif.BytesEq(w[hl:], b), lab+"/message-changed")
+	}
+	// the peer leaves: the place is free again
+	cur.Drop()
+	verif.Quiesce()
+	if shape == 1 {
+		for i := 0; i < 3 && d.Pipes[len(d.Pipes)-1].Closed; i++ {
+			if !verif.FireTimer() {
+				break
+			}
+		}
+	}
+	var nw *vt.Pipe
+	if shape == 1 && !d.Pipes[len(d.Pipes)-1].Closed {
+		nw = d.Pipes[len(d.Pipes)-1] // the dialer took the place over
+	} else {
+		nw = sb.Peer("p9")
+	}
+	verif.Assert(!nw.Closed, lab+"/new-peer-refused-after-the-single-peer-left")
+	if nw.Closed {
+		return
+	}
+	g2 := verif.Go("send2", func() { serr = sendOne(sock, proto, b) })
+	verif.Quiesce()
+	verif.Assert(g2.Done() && serr == nil && len(nw.Sent) == 1, lab+"/new-peer-got-no-traffic")
+	verif.Reach("simultaneous-checked")
+	sock.Close()
+}
